@@ -495,3 +495,60 @@ Proof.
     + destruct S as [-> [D _]]. split; [reflexivity|]. cbn [violated]. rewrite v_dup_dupb, BS, EB. exact D.
     + exact S.
 Qed.
+
+Lemma p1_loop_inv suf : forall pre st,
+  I1 pre st -> p1_lines st = None -> typed suf = true ->
+  match p1_loop None st suf with
+  | AOk st' => I1 (pre ++ suf) st' /\ p1_lines st' = None
+  | AErr k sp => p1_kind k = true /\ violated (pre ++ suf) k = true
+  | APanic => False
+  end.
+Proof.
+  induction suf as [|s suf IH]; intros pre st HI HL T; cbn [p1_loop].
+  - rewrite app_nil_r. split; assumption.
+  - cbn [typed forallb] in T. apply andb_prop in T. destruct T as [T1 T2].
+    pose proof (p1_step_inv pre st s HI HL T1) as S.
+    destruct (p1_step None st s) as [st1|k sp|]; cbn [abind].
+    + destruct S as [HI1 HL1]. specialize (IH (pre ++ [s]) st1 HI1 HL1 T2).
+      rewrite <- app_assoc in IH. exact IH.
+    + destruct S as [K V]. split; [exact K|].
+      replace (pre ++ s :: suf) with ((pre ++ [s]) ++ suf) by (rewrite <- app_assoc; reflexivity).
+      apply violated_mono; assumption.
+    + exact S.
+Qed.
+
+Lemma I1_init : I1 [] (mkP1 None [] [] None).
+Proof.
+  constructor; cbn; try reflexivity; try exact Logic.I.
+  - split; [constructor|]. intros k. reflexivity.
+  - intros b b' [].
+Qed.
+
+(* what a successful pass 1 establishes about the whole program *)
+Record P1ok (p : list stmt) (L : labmap) : Prop := mkP1ok {
+  ok_closed : final None p = None;
+  ok_rep : labels_rep L (bindings p);
+  ok_cons : consistent (bindings p);
+  ok_label : v_undet_label p = false;
+  ok_unop : v_unopened p = false;
+  ok_nest : v_nested p = false;
+  ok_io : v_reach asm.IO_START p = false }.
+
+Lemma pass1_nodebug p : typed p = true ->
+  match pass1 p None with
+  | AOk sym => P1ok p (st_labels sym) /\ st_debug sym = None
+  | AErr k sp => violated p k = true
+  | APanic => False
+  end.
+Proof.
+  intros T. unfold pass1.
+  pose proof (p1_loop_inv p [] _ I1_init eq_refl T) as S. cbn [app] in S.
+  destruct (p1_loop None _ p) as [st|k sp|]; cbn [abind].
+  - destruct S as [[CR R C VL VU VN VIO] HL]. unfold cur_rel in CR.
+    destruct (p1_cur st) as [cu|] eqn:ECU.
+    + destruct (final None p) as [[o a]|] eqn:EF; [|contradiction]. cbn [violated]. unfold v_unclosed. rewrite EF. reflexivity.
+    + destruct (final None p) as [[o a]|] eqn:EF; [contradiction|]. rewrite HL. cbn [st_labels st_debug].
+      split; [|reflexivity]. constructor; assumption.
+  - destruct S as [_ V]. exact V.
+  - exact S.
+Qed.
